@@ -1,9 +1,10 @@
 """C11 — address / port / ICMP validators (oslo_utils/netutils.py)
 
 Correspondence: the same generated cases through the real functions and through the extracted model
-(coq/Model/C11.v).  The two library oracles of the model (netaddr.valid_ipv4 in INET_ATON mode and
-netaddr.IPNetwork) are evaluated here and handed to the model as an argument; their contract
-(returns | raises ValueError / TypeError / AddrFormatError) is tested on every generated string.
+(coq/Model/C11.v).  netaddr.valid_ipv4 in INET_ATON mode, socket.inet_aton and netaddr.IPNetwork are modelled in
+Coq as well (no oracle argument is passed to the model any more); each library model is also compared with the
+library call itself (ops aton, na_aton, net, net6, pton4, pton6), and the library contract
+(returns | raises ValueError / TypeError / AddrFormatError) is still tested on every generated string.
 Oracle: model-free — `ipaddress`, `socket.inet_pton` / `inet_aton`, and direct string tests written from the
 property text."""
 import sys, os, re, socket, ipaddress, string
@@ -14,13 +15,16 @@ GEN = [('Gen/C11_Netutils.v', gen_C11.generate), ('Gen/C11_Code.v', gen_C11.gene
 EQUIV_FILES = ['Proofs/C11.v']
 EXTRACT = 'Extract/C11_x.v'
 LEVEL_TEXT = 'proof'
-LEVEL_NOTE = ('oslo logic + models of inet_pton(AF_INET/AF_INET6), CPython str->C string conversion, int(), str.lower(), re; '
-              'netaddr.IPNetwork and inet_aton acceptance enter as contract-carrying oracles (partial: their acceptance sets are library behaviour)')
-TRUSTED = ['glibc inet_pton (through socket.inet_pton) and netaddr.valid_ipv4/valid_ipv6 are MODELLED in Coq (Model/C11.v) and tied by '
-           'correspondence on every generated string (ops pton4/pton6 compare the model with socket.inet_pton directly)',
-           'netaddr.IPNetwork(s), IPNetwork(s, version=6).cidr and netaddr.valid_ipv4(s, INET_ATON) are ORACLES: Section-free arguments of '
-           'type ares with the contract "AOk _ | ARaise e with e in {ValueError, TypeError, AddrFormatError}" as an explicit premise; '
-           'the harness tests that contract on every generated string',
+LEVEL_NOTE = ('oslo logic + Coq models of every library function the validators reach: inet_pton(AF_INET/AF_INET6), inet_aton (glibc 2.36), '
+              'CPython str->C string conversion, netaddr.valid_ipv4 (both modes) / valid_ipv6 / IPNetwork(text[, version=6]) (netaddr 1.3.0), int(), '
+              'str.lower(), re; no oracle argument is left — the library models are tied by correspondence (ops pton4/pton6/aton/na_aton/net/net6)')
+TRUSTED = ['glibc inet_pton / inet_aton (through the socket module), netaddr.valid_ipv4 / valid_ipv6 / IPNetwork are MODELLED in Coq (Model/C11.v) '
+           'and tied by correspondence on every generated string: the ops pton4, pton6, aton, na_aton, net, net6 compare the model with the library '
+           'call itself (outcome and exception class), independently of the validators built on them',
+           'the logic layer is also proved against an arbitrary library outcome under an explicit contract (C11_ip_logic, C11_cidr_logic, '
+           'C11_validators_total_oracles); the harness tests that contract on every generated string',
+           'the value of an IPv6 netmask text is the one computed by the model function pton6_value (no declarative grammar for the VALUE of an '
+           'IPv6 text, only for its acceptance)',
            'CPython int(), str.lower(), re modelled in Base/PyInt.v, Base/Str.v (generated Unicode tables), Base/Regex.v; the MAC regex AST is '
            'regenerated from the source pattern through CPython\'s own re parser']
 ASSUMPTIONS = ['int() digit-count limit (4300) is not modelled: for longer digit strings CPython raises ValueError (-> False) and the model '
